@@ -347,6 +347,8 @@ def gen_op(rng, st, cfg):
         op = {"op": "mk", "via": via, "dims": gen_dims(rng, st), "vseed": rng.randint(0, 10 ** 6), "src": s,
               "num": rng.randint(-3, 9), "take": rng.randint(0, 4), "rot": rng.randint(0, 3), "fill_nd": rng.chance(0.4)}
         op["mem"] = rng.weighted([("c", 5), ("fortran", 2), ("reversed", 1), ("strided", 1)])
+        if via in ("superset", "full") and rng.chance(fp):
+            op["dup"] = rng.choice(["letter", "name"])
         if via in ("ctor_nd", "full_nd"):
             sf = gen_shape_fault(rng, fp)
             if sf:
@@ -445,9 +447,11 @@ def gen_op(rng, st, cfg):
         return {"op": "stock_compute", "k": rng.randint(0, 3), "prms": rng.weighted([("keep", 2), ("good", 3), ("bad", 2), ("singular_last", 2)])}
     if kind == "lifetime":
         def prm():
-            how = rng.weighted([("num", 2), ("ref", 3), ("fresh", 3), ("twin_same_letters", 1)])
+            how = rng.weighted([("num", 2), ("ref", 3), ("fresh", 3), ("twin_same_letters", 1), ("nd", 2)])
             if how == "num":
                 return {"how": "num"}
+            if how == "nd":
+                return {"how": "nd", "vseed": rng.randint(0, 10 ** 6), "shape_fault": rng.choice([None, "transposed", "bigger", "flat", "smaller", "one"])}
             if how == "twin_same_letters":
                 return {"how": how, "pos": rng.randint(0, 3), "more": rng.chance(0.5), "vseed": rng.randint(0, 10 ** 6)}
             if how == "ref":
